@@ -13,6 +13,11 @@ NA_FIXED = {
 }
 
 CLAIMS = {
+    'C12': dict(
+        technique="typed-HIR path-condition (decision-atom) extraction for the accessors, protocol recognition for the two iterators, must-call dominance for Drop and reset-completeness over MIR mutation summaries, check-before-use taint for the index, compile-fail witnesses",
+        text="Decides the accessor/iterator/drop structure for all indexes and all histories: Some exactly under `index < count` (and received bit clear), slice = shards[pos][..shard_bytes]; iterators: ended only set true, ended => None, ascending, items are the accessor's; Drop calls the implicit reset on every path and that reset clears every field add_* writes; index checked before arithmetic (defect F3 repaired by fix: b5b55b1); adding while a result is alive does not type-check.",
+        note="Shape recognisers fail closed on an unrecognised iterator idiom (reported as such). The exposed bytes themselves are C01/C02 (not applicable).",
+        design="§4 C12"),
     'C09': dict(
         technique="static abstract evaluation of the rate-decision function over the finite ordering domain (MIR path walk), control-dependence (edge dominance) of every high/low codec use on the decision value, forwarding-wrapper recognition for all API layers",
         text="Decides the structure that makes the default codec equal to the selected dedicated codec: the decision depends only on ord(npo2(o),npo2(r)) and ord(o,r) and matches the rule on all 5 feasible points; supports/new/reset of encoder AND decoder use that one decision on (o,r) in order and every high/low codec use is governed by its value; all other methods of DefaultRate* and ReedSolomon* are pure forwarding. Tiny-configuration tests cannot see a decoder choosing the other rate because the rates coincide within one chunk.",
